@@ -234,6 +234,42 @@ Definition wf_pedef (d : pedef) : bool :=
   | PExternal x => wf_extid x
   end.
 
+(* the body of a skipped declaration (what stands between the keyword and the closing '>'): a
+   sequence of characters other than '>' (62), the double quote (34), the apostrophe (39), and
+   of quoted literals  q ... q  (q one of the two quotes) whose inside does not contain q -- it
+   may contain '>' and the other quote.  State: outside a literal ([None]) / inside a literal
+   opened by q ([Some q]); the body is accepted iff the scan ends outside. *)
+Fixpoint decl_body_scan (st : option N) (l : scalars) : bool :=
+  match l with
+  | [] => match st with None => true | Some _ => false end
+  | x :: t =>
+    match st with
+    | None => if x =? 62 then false
+              else if (x =? 34) || (x =? 39) then decl_body_scan (Some x) t
+              else decl_body_scan None t
+    | Some q => if x =? q then decl_body_scan None t else decl_body_scan (Some q) t
+    end
+  end.
+Definition decl_body_ok (l : scalars) : bool := decl_body_scan None l.
+
+(* <!NOTATION n SYSTEM '>'>   <!ATTLIST a b CDATA ">">   the other quote inside a literal *)
+Example decl_body_notation_gt : decl_body_ok [32; 110; 32; 83; 89; 83; 84; 69; 77; 32; 39; 62; 39] = true.
+Proof. reflexivity. Qed.
+Example decl_body_attlist_gt : decl_body_ok [32; 97; 32; 98; 32; 67; 68; 65; 84; 65; 32; 34; 62; 34] = true.
+Proof. reflexivity. Qed.
+Example decl_body_other_quote : decl_body_ok [32; 34; 39; 62; 34; 32; 39; 34; 39] = true.
+Proof. reflexivity. Qed.
+Example decl_body_empty : decl_body_ok [] = true.
+Proof. reflexivity. Qed.
+(* <!ELEMENT a (b')>: a single unbalanced quote;  a literal closed by the other quote;
+   a '>' outside a literal *)
+Example decl_body_unbalanced : decl_body_ok [32; 97; 32; 40; 98; 39; 41] = false.
+Proof. reflexivity. Qed.
+Example decl_body_wrong_close : decl_body_ok [32; 34; 120; 39] = false.
+Proof. reflexivity. Qed.
+Example decl_body_gt_outside : decl_body_ok [32; 97; 62; 32; 39; 120; 39] = false.
+Proof. reflexivity. Qed.
+
 Definition wf_sdecl (s : sdecl) : bool :=
   match s with
   | SEntity e => wf_udecl_s e
@@ -242,9 +278,10 @@ Definition wf_sdecl (s : sdecl) : bool :=
   | SExternal ws0 ws1 name ws2 x ndata ws3 =>
     wf_s ws0 && wf_s1 ws1 && CstU.wf_name name && wf_s1 ws2 && wf_extid x &&
     wf_opt (fun n => wf_s1 (fst (fst n)) && wf_s1 (snd (fst n)) && CstU.wf_name (snd n)) ndata && wf_s ws3
-  | SMarkup ws0 k body =>  (* (L) the declaration is skipped up to the first '>' whatever it contains; so
-                              (R) no '>' inside, not even in a quoted literal *)
-    wf_s ws0 && forallb (fun x => Chars.scalar x && negb (x =? 62)) body
+  | SMarkup ws0 k body =>  (* (L) the declaration is skipped whatever it contains, up to the first '>' that
+                              is not inside a quoted literal; so (R) no '>' outside a literal, and every
+                              literal is closed *)
+    wf_s ws0 && forallb Chars.scalar body && decl_body_ok body
   | SMisc ws0 i => wf_s ws0 && wf_misc_s i
   end.
 
